@@ -254,7 +254,26 @@ class Ctx:
             else:
                 self.broken.append("build of %s failed: %s" % (t, _first_error(log)))
         self.build_ok = ok
+        if ok and self.thorough:
+            self.coqchk([t for t in targets if t.startswith("Props/")])
         return ok
+
+    def coqchk(self, targets):
+        """Thorough tier: re-check the compiled closure with the independent checker and record its axiom summary."""
+        for t in targets:
+            mod = "Webob." + t[:-3].replace("/", ".")
+            p = subprocess.run(["timeout", "1800", "coqchk", "-o", "-silent", "-Q", ".", "Webob", mod], cwd=COQ,
+                               capture_output=True, text=True)
+            out = p.stdout + p.stderr
+            summary = out[out.find("CONTEXT SUMMARY"):] if "CONTEXT SUMMARY" in out else out[-1500:]
+            m = re.search(r"\* Axioms:(.*?)\n\s*\n\* Constants", summary, flags=re.S)
+            axioms = (m.group(1).strip() if m else "?")
+            self.extra.setdefault("coqchk", {})[t] = {"exit": p.returncode, "axioms": axioms,
+                                                      "summary": " ".join(summary.split())[:1200]}
+            if p.returncode != 0:
+                self.broken.append("coqchk rejected %s: %s" % (t, out[-500:]))
+            elif axioms not in ("<none>", "?"):
+                self.trusted.append("coqchk -o axioms for %s: %s" % (t, " ".join(axioms.split())))
 
     # -------------------------------------------------------- correspondence
     def corr(self, name, imports, fn, cases, in_type=None, shard=400, shard_bytes=120000, describe=None):
